@@ -416,7 +416,9 @@ def expectedMockKinds (mode : Mode) (o : Opts) : List (MockKind × Bool) :=
 
 /-- mock derivations the user wrote below entrait and which entrait deliberately re-applies -/
 def userMockKinds (item : Item) : List (MockKind × Bool) :=
-  (item.attrs.filter (fun a => a.subKind == .asyncTrait || a.subKind == .automock)).filterMap Attr.mockKind
+  -- an entraited trait keeps all of its own attributes; from a fn / mod only `async_trait` / `automock` are re-applied
+  (if item.mode == .trait then item.attrs
+   else item.attrs.filter (fun a => a.subKind == .asyncTrait || a.subKind == .automock)).filterMap Attr.mockKind
 
 def P_C10 (v : Variant) (attr : Toks) (item : Item) (view : View) : Bool :=
   match item.mode, effectiveOpts v attr item, traitsOf view.items with
@@ -880,8 +882,9 @@ def P_C09 (v : Variant) (attr : Toks) (item : Item) (view : View) : Bool :=
           g.ident == t.ident && g.vis == t.vis && g.params == t.generics.params &&
           g.colon == t.colon && g.supertraits == t.supertraits && g.strail == t.strail &&
           g.preds == t.generics.preds && g.wtrail == t.generics.wtrail &&
-          -- the macro adds only mock derivations it owns
+          -- the macro adds only mock derivations it owns, and every attribute of the trait is kept
           g.attrs.all (fun a => t.attrs.contains a || a.mockKind.isSome) &&
+          t.attrs.all (fun a => g.attrs.contains a) &&
           zipAll (declMemberOk hasAT o.futureSendValue) t.fns (g.members.filter (fun m => m.sig?.isSome))
       | _, _ => false
   | _ => true
@@ -947,6 +950,11 @@ def expectedUnimock (o : Opts) (item : Item) (view : View) : Toks :=
      | .trait, _ => []
      | _, some im => unmockSpec (unmockEntries o.noDepsValue item.sourceFns im)
      | _, none => [])
+
+/-- the user did not hand-write the unimock derivation on the trait (that would derive twice) -/
+def Item.noUserUnimock : Item → Bool
+  | .trait t => t.attrs.all (fun a => a.unimockArgs.isNone)
+  | _ => true
 
 def P_C11 (v : Variant) (attr : Toks) (item : Item) (view : View) : Bool :=
   match effectiveOpts v attr item, mainTrait? view with
